@@ -48,14 +48,14 @@ rows, caught = [], 0
 for i in ids:
     m = json.load(open(os.path.join(S, i, "meta.json")))
     r = json.load(open(os.path.join(S, i, "result.json")))
-    rnd = {"A": 1, "B": 1, "C": 2, "D": 2, "E": 3, "F": 3, "G": 4, "H": 4, "I": 5, "J": 5, "K": 6}[i[-1]]
+    rnd = {"A": 1, "B": 1, "C": 2, "D": 2, "E": 3, "F": 3, "G": 4, "H": 4, "I": 5, "J": 5, "K": 6, "L": 7}[i[-1]]
     for chk, v in r.items():
         ok = v["exit"] == 1 and "VIOLATION" in v["verdict"]
         caught += ok
         clip = lambda t: re.sub(r"\s+", " ", str(t)).replace("|", "/")[:140]
         rows.append("| %s | %d | %s | %s | %s | %s | %s |" % (i, rnd, chk, "caught" if ok else "MISSED", v.get("replay_kind", ""), clip(m.get("breaks", "")), clip(m.get("needs_to_manifest", ""))))
 out = ["# Seeded breaking changes", "",
-       "Six rounds of fresh sub-agents (one property text and a scratch worktree each, nothing from /verif) wrote %d changes that break a property while the crate "
+       "Seven rounds of fresh sub-agents (one property text and a scratch worktree each, nothing from /verif) wrote %d changes that break a property while the crate "
        "compiles and the 41 pinned tests pass. Each was confirmed here (suite passes with it; its demonstration fails with it and passes without) before being kept: "
        "`patch.diff`, the demonstration, `meta.json` (the author's description plus our confirmation) and `result.json` (the verdict of `tools/run_seeded.py <id>`: "
        "apply to /repo, run the quick check, revert)." % len(ids), "",
@@ -82,6 +82,19 @@ R6 = {
             "case file could not be evaluated; an output with more peaks than the composition has isotope arrangements is now a failing input by counting alone"}
 out += ["", "Round 6 (`..K`; one change per property, blind): 13 of 17 caught with a failing input on the first run, 1 reported as `no-failing-input-found`, 3 missed:", ""]
 out += ["* `%s` — %s" % (k, v) for k, v in R6.items()]
+R7 = {
+    "C01L": "missed: the list form's `find`/`get` compare keys by the ADDRESS of the element (pointer identity) plus isotope: a composition parsed by "
+            "`ChemicalElements::parse_formula` against the helper's own table reads 0 through `get` with an equal key from the global table. The entry points' results were only "
+            "read by iteration; the own-table entry point is now read key by key through `get` and `[&key]` with keys built from the global table",
+    "C07L": "missed: `PartialEq` of the map form derived (so the private mass cache takes part): after `fmass()` the parsed-back text is no longer `==` the original. "
+            "Round trips were judged on entries only; the crate's own `==` (both directions, all forms, serde too) is now required against an original whose cache is populated",
+    "C11L": "`no-failing-input-found` at first (the differential tie broke on 40 cases, the specification merges peaks by mass and saw nothing wrong): products within 1e-5 Da "
+            "are folded into one peak, which only removes a genuine isotopologue for samarium (150+150 vs 148+152, 5e-6 Da apart); Sm was added to the element pool with fixed cases",
+    "C12L": "`no-failing-input-found` at first: a new statement in `populate_periodic_table` (pruning isotopes rarer than 1e-5: He-3 disappears) made the table translator refuse, "
+            "and the check stopped there; it now goes on to compare the run-time tables with the last accepted translation and the NIST data and reports the element (He)"}
+out += ["", "Round 7 (`..L`; one change per property, blind, on the final machinery): 13 of 17 caught with a failing input on the first run, 2 reported as "
+        "`no-failing-input-found`, 2 missed:", ""]
+out += ["* `%s` — %s" % (k, v) for k, v in R7.items()]
 out += ["", "After those additions all %d of %d are caught by the current checks (last full run of all patches: see the `result.json` files), each with a concrete failing input "
         "in the replay (`replay_kind`)." % (caught, len(rows)), "",
         "| id | round | check | verdict | replay | breaks | needs |", "|----|-------|-------|---------|--------|--------|-------|"] + rows
